@@ -39,3 +39,9 @@ Proof.
   eexists. eexists. exists 0. split; [repeat constructor; intros []|]. split; [vm_compute; reflexivity|].
   split; [vm_compute; left; reflexivity | vm_compute; discriminate].
 Qed.
+
+(* C03, no buffering node in between: the awaitable of emit completes only when the consumer has finished
+   (ack), never in the step that merely handed the element over (controlled sink) *)
+Lemma plain_emit_waits s src x m :
+  pl_sync s = false -> snd (snd (pl_step s (AEmit src x m))) = [] /\ In (pl_next s) (pl_flight (fst (pl_step s (AEmit src x m)))).
+Proof. intros H. cbn. rewrite H. split; [reflexivity|]. apply in_or_app. right. left. reflexivity. Qed.
